@@ -181,6 +181,22 @@ class Limit:
             self._dirty = True
             self._scoreboard[sb_idx] -= 1
 
+    def remaining(self, index: int, resource: Optional["Resource"] = None) -> Optional[int]:
+        """
+        Number of further bookings this upper limit admits in the period of the given slot.
+
+        Returns None if the limit does not apply (lower limit, other resource, outside the interval).
+        """
+        if not self.upper:
+            return None
+        if self.resource is not None and self.resource != resource:
+            return None
+        sb_idx = self._idx_to_sb_idx(index)
+        if sb_idx < 0:
+            return None
+        count = self._scoreboard[sb_idx] if sb_idx < len(self._scoreboard) else 0
+        return int(self.value - count)
+
     def ok(self, index: Optional[int], upper: bool, resource: Optional["Resource"] = None) -> bool:
         """
         Check if the counter is within the limit.
